@@ -141,14 +141,10 @@ Definition mem_nat (n : nat) (l : list nat) : bool := existsb (Nat.eqb n) l.
 Definition add_nat (n : nat) (l : list nat) : list nat := if mem_nat n l then l else l ++ [n].
 Definition nth_mask (m : list bool) (i : nat) : bool := nth i m false.
 
-(* the after-removal -> original index maps, exactly as the code builds them
-   (the second loop also writes into actual_map; expected_map stays the identity) *)
-Definition actual_map (has_rem : bool) (ka ke : list nat) (k : nat) : nat :=
-  if has_rem then
-    if Nat.ltb k (length ke) then nth k ke O
-    else if Nat.ltb k (length ka) then nth k ka O else k
-  else k.
-Definition expected_map (k : nat) : nat := k.
+(* the after-removal -> original index maps: a dict that starts as the identity and is
+   overwritten for the kept positions (after the C15 repair each side has its own map) *)
+Definition index_map (has_rem : bool) (kept : list nat) (k : nat) : nat :=
+  if has_rem then (if Nat.ltb k (length kept) then nth k kept O else k) else k.
 
 (* ---------------------------------------------------------------- diff_marker / reconstruct *)
 
@@ -229,7 +225,7 @@ Record result := {
 }.
 
 (* wrong_content: walk the differing after-removal indices *)
-Fixpoint wrong_content (o : opts) (orc : poracle) (amap : nat -> nat)
+Fixpoint wrong_content (o : opts) (orc : poracle) (amap emap : nat -> nat)
          (diffs : list (nat * str * str)) (nd : nat) (aign eign : list nat)
          (cases : list (str * str)) : option (nat * list nat * list nat * list (str * str)) :=
   match diffs with
@@ -237,15 +233,15 @@ Fixpoint wrong_content (o : opts) (orc : poracle) (amap : nat -> nat)
   | (i, a, e) :: rest =>
     match can_ignore o orc a e with
     | TDiverge => None
-    | TTrue => wrong_content o orc amap rest (nd - 1) (add_nat (amap i) aign)
-                             (add_nat (expected_map i) eign) cases
-    | TFalse => wrong_content o orc amap rest nd aign eign
+    | TTrue => wrong_content o orc amap emap rest (nd - 1) (add_nat (amap i) aign)
+                             (add_nat (emap i) eign) cases
+    | TFalse => wrong_content o orc amap emap rest nd aign eign
                               (if Nat.ltb (length cases) (o_maxperm o) then cases ++ [(a, e)] else cases)
     end
   end.
 
 (* wrong_number: only the ignored sets matter afterwards (ndiffs = max of the lengths) *)
-Fixpoint wrong_number (o : opts) (orc : poracle) (amap : nat -> nat)
+Fixpoint wrong_number (o : opts) (orc : poracle) (amap emap : nat -> nat)
          (oa oe : list str) (arem erem : list bool)
          (n i ia ie : nat) (aign eign : list nat) : option (list nat * list nat) :=
   match n with
@@ -254,19 +250,19 @@ Fixpoint wrong_number (o : opts) (orc : poracle) (amap : nat -> nat)
     let ra := nth_mask arem ia in
     let re := nth_mask erem ie in
     if ra || re then
-      wrong_number o orc amap oa oe arem erem n' (S i)
+      wrong_number o orc amap emap oa oe arem erem n' (S i)
                    (if ra then S ia else ia) (if re then S ie else ie) aign eign
     else
       (* original_actual[iactual] raises IndexError when a pointer has run off the end *)
       match nth_error oa ia, nth_error oe ie with
       | Some al, Some el =>
         if str_eqb (normalize (o_lstrip o) (o_rstrip o) al) (normalize (o_lstrip o) (o_rstrip o) el)
-        then wrong_number o orc amap oa oe arem erem n' (S i) (S ia) (S ie) aign eign
+        then wrong_number o orc amap emap oa oe arem erem n' (S i) (S ia) (S ie) aign eign
         else match can_ignore o orc al el with
              | TDiverge => None
-             | TTrue => wrong_number o orc amap oa oe arem erem n' (S i) (S ia) (S ie)
-                                     (add_nat (amap i) aign) (add_nat (expected_map i) eign)
-             | TFalse => wrong_number o orc amap oa oe arem erem n' (S i) ia ie aign eign
+             | TTrue => wrong_number o orc amap emap oa oe arem erem n' (S i) (S ia) (S ie)
+                                     (add_nat (amap i) aign) (add_nat (emap i) eign)
+             | TFalse => wrong_number o orc amap emap oa oe arem erem n' (S i) ia ie aign eign
              end
       | _, _ => None
       end
@@ -290,7 +286,8 @@ Definition check_strings (o : opts) (orc : poracle) (actual0 expected0 : list st
   let erem := if has_rem then removed_mask (o_rem o) oe else map (fun _ => false) oe in
   let a := keep arem oa in
   let e := keep erem oe in
-  let amap := actual_map has_rem (kept_idx arem O) (kept_idx erem O) in
+  let amap := index_map has_rem (kept_idx arem O) in
+  let emap := index_map has_rem (kept_idx erem O) in
   let norm := normalize (o_lstrip o) (o_rstrip o) in
   let any_rem := existsb (fun b => b) arem || existsb (fun b => b) erem in
   let finish (nd : nat) (permutable : bool) (aign eign : list nat) (cases : list (str * str)) :=
@@ -309,12 +306,12 @@ Definition check_strings (o : opts) (orc : poracle) (actual0 expected0 : list st
   if Nat.eqb (length a) (length e) then
     let diffs := filter (fun t => negb (str_eqb (norm (snd (fst t))) (norm (snd t))))
                         (combine (combine (seq 0 (length a)) a) e) in
-    match wrong_content o orc amap diffs (length diffs) [] [] [] with
+    match wrong_content o orc amap emap diffs (length diffs) [] [] [] with
     | None => diverged
     | Some (nd, aign, eign, cases) => finish nd true aign eign cases
     end
   else
-    match wrong_number o orc amap oa oe arem erem (Nat.min (length oa) (length oe)) O O O [] [] with
+    match wrong_number o orc amap emap oa oe arem erem (Nat.min (length oa) (length oe)) O O O [] [] with
     | None => diverged
     | Some (aign, eign) => finish (Nat.max (length oa) (length oe)) false aign eign []
     end.
